@@ -129,7 +129,8 @@ async def check_string(ctx, s: str, cls: str = "replay"):
             ctx.violation("verdict-changes-on-repetition", f"condition-parser({s!r}): first call {describe(first)[:120]}, second call {describe(again)[:120]}")
     # 2. AHB expression parser: the condition part is only checked for its character set there, so only MUST_ACCEPT and the exception type are asserted
     ctx.evaluation()
-    judge(ctx, "ahb-parser", s, av, capture(parse_ahb_expression_to_single_requirement_indicator_expressions, s), strict_reject=False)
+    ahb_out = capture(parse_ahb_expression_to_single_requirement_indicator_expressions, s)
+    judge(ctx, "ahb-parser", s, av, ahb_out, strict_reject=False)
     # 3. combined resolver
     ctx.evaluation()
     out = await acapture(parse_expression_including_unresolved_subexpressions(s))
@@ -152,6 +153,22 @@ async def check_string(ctx, s: str, cls: str = "replay"):
             res = vout[1]
             if not (isinstance(res, tuple) and len(res) == 2 and res[0] is False and isinstance(res[1], str) and res[1]):
                 ctx.violation(f"is-valid-not-false{nonascii_kind(s)}", f"is_valid_expression({s!r}) returned {res!r}, expected (False, message)")
+    # 4b. ... also when the input is the tree of the AHB parser (indicator structure fine, condition part malformed)
+    if rv == S.REJ and ahb_out[0] == "ok":
+        ctx.evaluation()
+        ctx.count("is_valid_expression_on_ahb_tree_with_malformed_condition")
+
+        async def go_tree():
+            E.set_world(E.World("c02", rc=_All("F"), fc=_All(True)))
+            return await is_valid_expression(ahb_out[1], lambda cer: None)
+
+        vout = await sched.run_under(None, go_tree)
+        if vout[0] != "ok":
+            ctx.violation(f"is-valid-raises-{type(vout[1]).__name__}", f"is_valid_expression(the tree of the AHB expression parser for {s!r}) {describe(vout)[:300]} - a malformed condition part must be reported as (False, message)")
+        else:
+            res = vout[1]
+            if not (isinstance(res, tuple) and len(res) == 2 and res[0] is False and isinstance(res[1], str) and res[1]):
+                ctx.violation(f"is-valid-not-false{nonascii_kind(s)}", f"is_valid_expression(the tree of the AHB expression parser for {s!r}) returned {res!r}, expected (False, message)")
     if rv != S.REJ or cv != S.REJ or (s and (s[0] in "[(" or s[0] in "MmSsKkXxOoUu")):
         ctx.nontrivial(s)
         ctx.count("nontrivial_strings")
